@@ -328,6 +328,12 @@ func (a *Analysis) lockDiscipline(rep *Report, g *guardedState, name string, fn 
 			default:
 				rep.Ob("Q2-balanced", name+":"+e.Mode, false, a.P.Pos(e.Pos), "conditional lock acquisition "+e.Mode+" is outside the discipline")
 			}
+		case EvAtomic:
+			// a second piece of registry state beside the guarded map (a look-up memo, a version word …): what an
+			// operation answers then depends on two things that are not updated together
+			if e.Mode != "Once.Do" {
+				rep.Ob("Q6-no-state-beside-the-map", name+":"+e.Mode, false, a.P.Pos(e.Pos), "the operation "+e.Mode+"s an atomic word ("+valOrNil(e.Recv)+") beside the mutex-guarded map: the map and the word are not changed in one step, so a look-up can answer from a state no sequential order produces")
+			}
 		case EvMapRead:
 			if base, ok := fieldBase(e.Recv, g.Struct, g.MapField); ok {
 				access(e, base, false, "read("+e.Mode+")")
@@ -721,6 +727,131 @@ func (a *Analysis) onceAssignment(e *Event) bool {
 	return e != nil && e.Once && e.Fn != nil && a.globalFacts().startupOnly(e.Fn) && !isInitFunc(e.Fn) && e.Fn.Parent() != nil
 }
 
+// paramDerived: the values of fn that point into memory reachable from its parameter number pi.
+func paramDerived(fn *ssa.Function, pi int) map[ssa.Value]bool {
+	d := map[ssa.Value]bool{}
+	if pi >= len(fn.Params) {
+		return d
+	}
+	d[fn.Params[pi]] = true
+	for changed := true; changed; {
+		changed = false
+		set := func(v ssa.Value) {
+			if !d[v] {
+				d[v] = true
+				changed = true
+			}
+		}
+		for _, b := range fn.Blocks {
+			for _, in := range b.Instrs {
+				switch in := in.(type) {
+				case *ssa.UnOp:
+					if in.Op.String() == "*" && d[in.X] && isRefType(in.Type()) {
+						set(in)
+					}
+				case *ssa.FieldAddr:
+					if d[in.X] {
+						set(in)
+					}
+				case *ssa.IndexAddr:
+					if d[in.X] {
+						set(in)
+					}
+				case *ssa.Slice:
+					if d[in.X] {
+						set(in)
+					}
+				case *ssa.Phi:
+					for _, e := range in.Edges {
+						if d[e] {
+							set(in)
+						}
+					}
+				case *ssa.ChangeType:
+					if d[in.X] {
+						set(in)
+					}
+				case *ssa.Lookup:
+					if d[in.X] && isRefType(in.Type()) {
+						set(in)
+					}
+				case *ssa.Extract:
+					if d[in.Tuple] && isRefType(in.Type()) {
+						set(in)
+					}
+				}
+			}
+		}
+	}
+	return d
+}
+
+// writesThroughParams: for every module function, the parameters through which it (or a module function it hands the
+// memory on to) writes: stores, map updates, delete/clear/copy into memory reachable from the parameter.
+func (a *Analysis) writesThroughParams() map[*ssa.Function]map[int]bool {
+	out := map[*ssa.Function]map[int]bool{}
+	var fns []*ssa.Function
+	for fn := range a.P.AllFuncs {
+		if a.P.InModule(fn) && fn.Blocks != nil && !a.P.IsTestFile(fn.Pos()) {
+			fns = append(fns, fn)
+		}
+	}
+	derived := map[*ssa.Function][]map[ssa.Value]bool{}
+	for _, fn := range fns {
+		for pi, p := range fn.Params {
+			var d map[ssa.Value]bool
+			if isRefType(p.Type()) {
+				d = paramDerived(fn, pi)
+			}
+			derived[fn] = append(derived[fn], d)
+		}
+	}
+	for changed := true; changed; {
+		changed = false
+		for _, fn := range fns {
+			for pi, d := range derived[fn] {
+				if d == nil || out[fn][pi] {
+					continue
+				}
+				w := false
+				for _, b := range fn.Blocks {
+					for _, in := range b.Instrs {
+						switch in := in.(type) {
+						case *ssa.Store:
+							if d[in.Addr] {
+								w = true
+							}
+						case *ssa.MapUpdate:
+							if d[in.Map] {
+								w = true
+							}
+						case *ssa.Call:
+							if bi, ok := in.Call.Value.(*ssa.Builtin); ok && (bi.Name() == "delete" || bi.Name() == "clear" || bi.Name() == "copy") && len(in.Call.Args) > 0 && d[in.Call.Args[0]] {
+								w = true
+							}
+							if callee := in.Call.StaticCallee(); callee != nil {
+								for ai, arg := range in.Call.Args {
+									if d[arg] && out[callee][ai] {
+										w = true
+									}
+								}
+							}
+						}
+					}
+				}
+				if w {
+					if out[fn] == nil {
+						out[fn] = map[int]bool{}
+					}
+					out[fn][pi] = true
+					changed = true
+				}
+			}
+		}
+	}
+	return out
+}
+
 func (a *Analysis) computeGlobalFacts() *globalFactsT {
 	inModule := func(g *ssa.Global) bool { return g.Pkg != nil && strings.HasPrefix(g.Pkg.Pkg.Path(), modulePath) }
 	// V1
@@ -736,6 +867,7 @@ func (a *Analysis) computeGlobalFacts() *globalFactsT {
 	sort.Slice(globals, func(i, j int) bool { return globals[i].String() < globals[j].String() })
 	var writes []globalWrite
 	readers := map[*ssa.Global]map[*ssa.Function]bool{}
+	wtp := a.writesThroughParams()
 	for fn := range a.P.AllFuncs {
 		if !a.P.InModule(fn) || fn.Blocks == nil || a.P.IsTestFile(fn.Pos()) {
 			continue
@@ -743,6 +875,22 @@ func (a *Analysis) computeGlobalFacts() *globalFactsT {
 		d := globalDerived(fn, inModule)
 		for _, b := range fn.Blocks {
 			for _, in := range b.Instrs {
+				// memory of a package-level variable handed to a function that writes through that parameter (a method on
+				// the variable's address, say)
+				if c, ok := in.(ssa.CallInstruction); ok {
+					if callee := c.Common().StaticCallee(); callee != nil && wtp[callee] != nil {
+						for ai, arg := range c.Common().Args {
+							if !wtp[callee][ai] {
+								continue
+							}
+							if g, isG := arg.(*ssa.Global); isG && inModule(g) {
+								writes = append(writes, globalWrite{g, fn, in, "write through " + callee.Name()})
+							} else if g, has := d[arg]; has {
+								writes = append(writes, globalWrite{g, fn, in, "write through " + callee.Name()})
+							}
+						}
+					}
+				}
 				switch in := in.(type) {
 				case *ssa.Store:
 					if g, ok := in.Addr.(*ssa.Global); ok && inModule(g) {
